@@ -122,7 +122,10 @@ CHECKS["C07"] = {
             "equals the dump at the snapshot and the journal has its old length, no panic; at the end a second real manager that executed only the surviving operations must agree on raw logs, state, "
             "merged+finalised logs, version root and finalised dumps incl. roots and version records. non-trivial = nesting depth >= 2 and a revert after (an earlier revert followed by further writes); distinct by history digest. "
             "evm: generated EVM scenarios (see C16) executed through a recording vm.AccountManager proxy that truncates its record at every RevertToSnapshot; a manager replaying only the surviving operations "
-            "must agree on raw logs, state, finalised logs, roots and version root; non-trivial = nesting >= 2, a revert that undid writes and a write after a revert.",
+            "must agree on raw logs, state, finalised logs, roots and version root; non-trivial = nesting >= 2, a revert that undid writes and a write after a revert. "
+            "chain: generated chain histories (C01 grammar, decoy- and box-heavy, small block gas limits): the miner's account manager after assembling the candidate list equals the one after assembling only the packaged "
+            "transactions (all addresses, logged keys, roots, versions, raw code hash); RebuildAll of the block's wire-decoded change logs on the parent state equals the stored state of the executed block; "
+            "non-trivial = a block with discards and a redone block.",
     "level_text": "Model-based generated histories with two oracles (stack of state dumps; differential against a manager that never executed the reverted operations), plus the same comparison inside real EVM executions, "
                   "miner-side discards and block redo. Exploration: history length and the 4-account / 15-key universe are generator bounds.",
     "level_note": "Trusted: the dump (public getters + verif-tagged raw account export); events are excluded (the statement does not list them and undo deliberately keeps them); "
@@ -132,6 +135,7 @@ CHECKS["C07"] = {
     "units": [
         {"name": "api", "test": "TestC07API", "quick": {"checks": 4000, "shards": 4, "timeout": 900}, "thorough": {"checks": 40000, "shards": 16, "timeout": 3000}},
         {"name": "evm", "test": "TestC07EVM", "quick": {"checks": 2500, "shards": 4, "timeout": 900}, "thorough": {"checks": 25000, "shards": 16, "timeout": 3000}},
+        {"name": "chain", "test": "TestC07Chain", "quick": {"checks": 150, "shards": 4, "timeout": 900}, "thorough": {"checks": 2500, "shards": 16, "timeout": 3400}},
     ],
 }
 
